@@ -139,11 +139,15 @@ theorem Tag.src_last_not_nl {d : Delims} (gd : Good d) (g : Tag) (z : List Char)
     ∃ x r, (g.src d).reverse = x :: r ∧ isNl x = false := by
   cases hgl : g.isLine with
   | false =>
-    obtain ⟨x, r, hx, hw⟩ := Tag.src_rev_head gd g hgl
-    exact ⟨x, r, hx, isWs_false_not_nl hw⟩
+    obtain ⟨u, x, r, hx, hu, hw⟩ := Tag.src_rev_head gd g hgl
+    cases u with
+    | nil => exact ⟨x, r, by simpa using hx, isWs_false_not_nl hw⟩
+    | cons a u => exact ⟨a, u ++ x :: r, by simpa using hx, isHws_not_nl (hu a (by simp))⟩
   | true =>
     have hown := g.own z hok
-    obtain ⟨x0, r0, hx0, hn0⟩ := endNotNl_rev (gd.lastNl _ hown)
+    have hml : g.marker.isLine = true := by
+      cases g with | mk kind l r => cases kind <;> simp_all [Tag.marker, Tag.isLine, Marker.isLine]
+    obtain ⟨x0, r0, hx0, hn0⟩ := endNotNl_rev (gd.lastNl _ hown hml)
     cases g with
     | mk kind l r =>
       cases kind with
@@ -414,6 +418,24 @@ theorem commentFollow_mono (f z : List Char) (h : commentFollow (f ++ z) = true)
   | nil => rfl
   | cons c r => exact h
 
+theorem closeOk_mono (e : List Char) (he : e ≠ []) (r : Mark) (f z : List Char)
+    (h : closeOk e r (f ++ z) = true) : closeOk e r f = true := by
+  cases r with
+  | minus => rfl
+  | plus => rfl
+  | none =>
+    cases e with
+    | nil => exact absurd rfl he
+    | cons c t =>
+      simp only [closeOk, bne_self_eq_false, Bool.false_or, List.cons_append, Bool.not_eq_true',
+        Bool.and_eq_false_iff] at h ⊢
+      rcases h with h | h
+      · exact Or.inl h
+      · right
+        have e1 : t ++ (f ++ z) = (t ++ f) ++ z := by simp [List.append_assoc]
+        rw [e1] at h
+        exact startsWith_false_of_append z h
+
 theorem tagOk_mono {d : Delims} (gd : Good d) (g : Tag) (f z : List Char) (h : tagOk d g (f ++ z) = true) :
     tagOk d g f = true := by
   cases g with
@@ -427,18 +449,22 @@ theorem tagOk_mono {d : Delims} (gd : Good d) (g : Tag) (f z : List Char) (h : t
     | var ts =>
       simp only [tagOk, Bool.and_eq_true] at h ⊢
       obtain ⟨c, rr, hve, _⟩ := headOk_cons gd.ve
-      refine ⟨?_, h.2⟩
+      refine ⟨⟨?_, h.1.2⟩, closeOk_mono d.ve (headOk_ne gd.ve) r f z h.2⟩
       apply interiorOk_mono d.ve ts 0 _ z (by simp [hve])
-      simpa [List.append_assoc] using h.1
+      simpa [List.append_assoc] using h.1.1
     | block ts =>
       simp only [tagOk, Bool.and_eq_true, Bool.not_eq_true'] at h ⊢
-      obtain ⟨c, rr, hbe, hw, _⟩ := headOk_cons gd.be
-      refine ⟨⟨?_, h.1.2⟩, ?_⟩
+      obtain ⟨c, rr, hbe, hw⟩ := headOk_cons gd.be
+      refine ⟨⟨⟨?_, h.1.1.2⟩, closeOk_mono d.be (headOk_ne gd.be) r f z h.1.2⟩, ?_⟩
       · apply interiorOk_mono d.be ts 0 _ z (by simp [hbe])
-        simpa [List.append_assoc] using h.1.1
+        simpa [List.append_assoc] using h.1.1.1
       · apply startsWith_dropWhile_mono rawName _ z ⟨c, by simp [hbe], hw⟩
         simpa [List.append_assoc] using h.2
-    | raw c ri l2 tight => rfl
+    | raw c ri l2 tight =>
+      simp only [tagOk, Bool.and_eq_true] at h ⊢
+      refine ⟨?_, closeOk_mono d.be (headOk_ne gd.be) r f z h.2⟩
+      apply closeOk_mono d.be (headOk_ne gd.be) ri _ z
+      simpa [List.append_assoc] using h.1
     | lineStmt ts =>
       simp only [tagOk, Bool.and_eq_true] at h ⊢
       exact ⟨⟨h.1.1, lineInteriorOk_mono ts 0 f z h.1.2⟩, lineFollow_mono f z h.2⟩
